@@ -18,7 +18,7 @@ def sh(cmd, **kw):
     return r.returncode, r.stdout
 patch = os.path.join(src, "patch.diff")
 demo = os.path.join(src, "demo.rs")
-notes = open(os.path.join(src, "notes.md")).read() if os.path.exists(os.path.join(src, "notes.md")) else ""
+notes = open(os.path.join(src, "notes.md")).read() if os.path.exists(os.path.join(src, "notes.md")) else (json.load(open(os.path.join(src, "meta.json"))).get("notes", "") if os.path.exists(os.path.join(src, "meta.json")) else "")
 ptxt = open(patch).read()
 bind = "bindings/tests" in notes or "cooklang_bindings" in open(demo).read()
 demo_dst = os.path.join(scratch, "bindings/tests/seed_demo.rs" if bind else "tests/seed_demo.rs")
@@ -55,13 +55,22 @@ print(json.dumps(res, indent=1))
 if confirmed:
     d = os.path.join(VER, "seeded", sid)
     os.makedirs(d, exist_ok=True)
-    shutil.copy(patch, os.path.join(d, "patch.diff"))
-    shutil.copy(demo, os.path.join(d, "demo.rs"))
+    if os.path.abspath(src) != os.path.abspath(d):
+        shutil.copy(patch, os.path.join(d, "patch.diff"))
+        shutil.copy(demo, os.path.join(d, "demo.rs"))
+    prev = {}
+    if os.path.exists(os.path.join(d, "meta.json")):
+        try:
+            prev = json.load(open(os.path.join(d, "meta.json")))
+        except Exception:
+            prev = {}
     meta = {"id": sid, "property": pid, "source": "independent sub-agent given only the property text and a scratch worktree",
             "needs_to_manifest": "see notes", "notes": notes[:4000],
             "confirmed": {k: res[k] for k in ("demo_on_original", "suite_with_change", "demo_with_change")},
             "ran": ["cargo test --test seed_demo (original tree): pass", "cargo test --workspace --offline (with change): pass",
                     "cargo test --test seed_demo (with change): fail", f"VERIF_REPO=<scratch> ./check {pid}"],
-            "detected_by": res["caught_by"], "check_output": checks}
+            "detected_by": res["caught_by"], "check_output": checks,
+            "first_run": prev.get("first_run", {"detected_by": res["caught_by"]}),
+            "needs": prev.get("needs", "")}
     json.dump(meta, open(os.path.join(d, "meta.json"), "w"), indent=1)
 shutil.rmtree(scratch, ignore_errors=True)
